@@ -212,7 +212,7 @@ def run(ctx):
             judge_trace(ctx, trace, "re-executed deviations of direction A")
 
     # ---- 3. direction B: random histories with real sizes
-    nruns = 400 if thorough else 60
+    nruns = 400 if thorough else 40
     for k in range(3 if thorough else 1):
         trace = os.path.join(ctx.workdir, "drive%d.ndjson" % k)
         rc, out = core.run_harness([sp.exe(bins), "recv-drive", str(ctx.seed * 1000 + k), str(nruns), trace], timeout=900)
